@@ -305,3 +305,19 @@ func tieObs(before, after *Dump, errClass string) []string {
 }
 
 var _ = sqlite.DriverName
+
+// typeChanged: some column has another declared type afterwards.
+func typeChanged(before, after *Dump) bool {
+	for n, t := range after.Tables {
+		tb := before.Tables[n]
+		if tb == nil {
+			continue
+		}
+		for _, c := range t.Cols {
+			if bi := tb.colIdx(c.Name); bi >= 0 && normType(tb.Cols[bi].Type) != normType(c.Type) {
+				return true
+			}
+		}
+	}
+	return false
+}
